@@ -122,6 +122,27 @@ def run(ctx):
             cs_ = [abs(c_) for m_, c_ in d_.p.items() if any(a_.kind == 'call' and a_.args[0] == 'abs' for a_, _ in m_)]
             coarse = bool(cs_) and min(cs_) >= F(1, 1000000)
     ok_prec = uses_dtype or double_stats or coarse
+    # when the epsilon is read off the dtype of the STATISTICS (data_mean.dtype), the statistics must arrive in the precision they
+    # were computed in: estimate_stats handing back float(mean) -- a Python float, i.e. double -- makes a float32 mean look exact
+    stats_derived = any(x.kind == 'sym' and x.args[0] in ('data_mean', 'data_std') or
+                        (x.kind == 'sub' and 'estimate_stats' in pretty(Term.of(x)))
+                        for a in fin for x in T.all_atoms(Term.of(a)).values())
+    if uses_dtype and stats_derived and not double_stats and not coarse:
+        CONV = {'float', 'complex', 'int', 'item', 'tolist', 'astype', 'float64', 'double', 'float_', 'asarray', 'array'}
+        stat_names = set()
+        for n in ast.walk(es.node):
+            if isinstance(n, ast.Assign) and isinstance(n.value, ast.Call) and ast.unparse(n.value.func).split('.')[-1] in ('mean', 'std'):
+                stat_names |= {t.id for t in n.targets if isinstance(t, ast.Name)}
+
+        def is_stat(e):
+            return any((isinstance(m, ast.Name) and m.id in stat_names) or
+                       (isinstance(m, ast.Call) and ast.unparse(m.func).split('.')[-1] in ('mean', 'std')) for m in ast.walk(e))
+        conv = [n for n in ast.walk(es.node) if isinstance(n, ast.Call) and ast.unparse(n.func).split('.')[-1] in CONV
+                and (any(is_stat(a_) for a_ in n.args) or (isinstance(n.func, ast.Attribute) and is_stat(n.func.value)))]
+        ctx.ob('FLOATEQ', 'the statistics reach the zero-variance test in the precision they were computed in (the test reads its '
+               'epsilon off their dtype): estimate_stats returns the numpy mean / deviation unconverted', es, not conv,
+               {'conversions': [ast.unparse(n)[:80] for n in conv]}, node=(conv[0] if conv else es.node),
+               construct='estimate_stats returned statistics [dtype]')
     ctx.ob('FLOATEQ', 'the tolerance of the zero-variance test follows the precision of the statistics (constant float32 input has '
            'a computed deviation of a few float32 roundings of its mean, not float64 ones)', qr, ok_prec,
            {'test': pretty(G)[:300], 'epsilon_from_dtype': uses_dtype, 'statistics_in_double_precision': double_stats},
